@@ -15,6 +15,10 @@ C = {
              text='Prefix closure of the template set and the parent / get_as / "/" laws are invariants of the model; every typed string (and untyped inputs) is built through six constructors and navigated, every result validated against GetAs / Parent / Div of the spec.', ref='5 (C03)'),
  'C04': dict(tech='TLC model checking of MC_Core[query, getwith] (AllOrNothing, OptionalNeverAdds, GetWithExact; decision table rows as coverage tags) + replay + TLC trace validation',
              text='The five-row decision table of query application is an explicit operator (ApplyQueryB); TLC checks all-or-nothing on every (Sid, overlay) of the family and the implementation is validated row by row (coverage guard: rows NoType, OneType, ManyKeepsOld, ManySearchFirst exercised).', ref='5 (C04)'),
+ 'C05': dict(tech='TLC model checking of MC_Path[topath] (RoundTrip, SameUpToRoot; path parse sets, repeated-placeholder consistency, value mappings in TLA+) + replay of sid.path() in every spelling and configuration order + TLC trace validation',
+             text='ToPath / FromPath are explicit operators over lexeme paths; TLC proves the round trip (hence injectivity and unambiguous parse) on the family; the implementation is asked positionally, by keyword, twice, through Sids built by other constructors, with either configuration loaded first, and every answer is validated.', ref='5 (C05)'),
+ 'C06': dict(tech='TLC model checking of MC_Path[frompath] (OwnerOnly over lexeme-level edits of valid paths) + replay into Sid(path=, config=) + TLC trace validation',
+             text='TLC checks on the model that a typed result always formats back to the path; every edited path is resolved by the implementation and validated (no exception of any class; typed => path() is the input; strict type / fields where the parse is unambiguous).', ref='5 (C06)'),
  'C07': dict(tech='TLC model checking of MC_Search[unfold]: operational pipeline Unfold = declarative Denote on every search of the edit family + replay into unfold_search + TLC trace validation',
              text='Two independent definitions of what a search denotes (the staged pipeline and the set comprehension written from the property text) are proved equal by TLC on the family; unfold_search is then validated against them (set equality, no duplicates, only SpilException).', ref='5 (C07)'),
  'C08': dict(tech='TLC model checking of MC_Search[findlist] over generated universes + replay into FindInList.find / find_one / exists + TLC trace validation (FindListClauses)',
